@@ -118,48 +118,57 @@ structure Prog where
   rows : List Row
   entries : List Fn
 
-/-- certificate: `reach[t]` = bit mask (over function ids) of the functions type `t` may propagate out of -/
+/-- bit `f` of mask `m`, written with the `Nat` primitives the kernel evaluates natively on literals -/
+def bitOf (m f : Nat) : Bool := Nat.beq (Nat.shiftRight m f % 2) 1
+
+/-- certificate: `reach[t]` = bit mask (over function ids) of the functions type `t` may propagate out of;
+`any` = a mask containing all of them (lets the check skip the callees nothing propagates out of) -/
 structure Cert where
   reach : List Nat
+  any : Nat
 
-/-- bit `f` of `reach[t]`, written with the `Nat` primitives the kernel evaluates natively on literals -/
-def Cert.mem (c : Cert) (t : Ty) (f : Fn) : Bool := Nat.beq (Nat.shiftRight (c.reach.getD t 0) f % 2) 1
+def Cert.mem (c : Cert) (t : Ty) (f : Fn) : Bool := bitOf (c.reach.getD t 0) f
+
+def Cert.wf (c : Cert) (types : List Ty) : Bool := types.all fun t => Nat.beq (Nat.lor c.any (c.reach.getD t 0)) c.any
 
 def siteOk (P : Prog) (c : Cert) (excl : List Nat) (s : Site) : Bool :=
   s.guard != 0 || caughtIn P.hier s.ctx s.ty || excl.contains s.id || c.mem s.ty s.fn
 
 def rowOk (P : Prog) (c : Cert) (types : List Ty) (r : Row) : Bool :=
+  !(bitOf c.any r.fn) ||
   types.all fun t =>
     !(c.mem t r.fn) ||
       (r.callers.all (fun f => c.mem t f) && r.pcallers.all (fun e => !(e.passes P.hier t) || c.mem t e.caller))
 
 /-- the certificate is inductive for all sites except the excluded ones (the alarms) -/
 def closed (P : Prog) (c : Cert) (types : List Ty) (excl : List Nat) : Bool :=
-  P.sites.all (fun s => types.contains s.ty && siteOk P c excl s) && P.rows.all (rowOk P c types)
+  c.wf types && P.sites.all (fun s => types.contains s.ty && siteOk P c excl s) && P.rows.all (rowOk P c types)
 
 /-- no type can propagate out of an entry point -/
 def entriesClear (P : Prog) (c : Cert) (types : List Ty) : Bool :=
   P.entries.all fun e => types.all fun t => !(c.mem t e)
 
-/-- a claimed propagation chain: the functions from the site's function up to an entry point -/
+/-- a claimed propagation chain: the site's function, then every further function up to an entry point together
+with the index of the row of `P.rows` that holds the call edge from the previous function -/
 structure Path where
   site : Nat
-  hops : List Fn
+  first : Fn
+  hops : List (Fn × Nat)
   deriving Repr
 
-def hasEdge (P : Prog) (t : Ty) (callee caller : Fn) : Bool :=
-  P.rows.any fun r => r.fn == callee &&
-    (r.callers.contains caller || r.pcallers.any (fun e => e.caller == caller && e.passes P.hier t))
+def edgeAt (P : Prog) (t : Ty) (callee caller : Fn) (idx : Nat) : Bool :=
+  match P.rows[idx]? with
+  | none => false
+  | some r => r.fn == callee &&
+      (r.callers.contains caller || r.pcallers.any (fun e => e.caller == caller && e.passes P.hier t))
 
-def chainOk (P : Prog) (t : Ty) : Fn → List Fn → Bool
+def chainOk (P : Prog) (t : Ty) : Fn → List (Fn × Nat) → Bool
   | cur, [] => P.entries.contains cur
-  | cur, nxt :: rest => hasEdge P t cur nxt && chainOk P t nxt rest
+  | cur, (nxt, idx) :: rest => edgeAt P t cur nxt idx && chainOk P t nxt rest
 
 def pathOk (P : Prog) (p : Path) : Bool :=
   P.sites.any fun s => s.id == p.site && s.guard == 0 && !(caughtIn P.hier s.ctx s.ty) &&
-    (match p.hops with
-     | [] => false
-     | f0 :: rest => f0 == s.fn && chainOk P s.ty f0 rest)
+    p.first == s.fn && chainOk P s.ty p.first p.hops
 
 /-- a funnel: the handler list of one of the outer try blocks of the per-file analysis -/
 structure Funnel where
